@@ -71,6 +71,7 @@ type Case struct {
 	CacheMB     int      `json:"cache_mb"`
 	TTL         uint16   `json:"ttl"`
 	Misaligned  bool     `json:"misaligned"` // informational stream: prune ranges not multiples of the factor
+	Tie         bool     `json:"tie,omitempty"` // store correspondence: recorded puts / deletes replayed on the store model
 	Genesis     []Op     `json:"genesis"`
 	Steps       []Step   `json:"steps"`
 }
@@ -138,6 +139,8 @@ type blockRec struct {
 	root      trie.Root
 	atCommit  string   // state content read right after commit
 	index     []string // expected block-number index (ids of the ancestors and itself)
+	stor      map[string]trie.Version // non-empty storage tries of the committed state: trie name -> root version
+	accLeaves string                  // leaves of the account trie read right after commit
 }
 
 type readRec struct {
@@ -156,6 +159,173 @@ type realRun struct {
 	deadFork string // known weakness: see known_findings.json F7
 	err      string
 	counts   map[string]int
+	tie      *tieState
+}
+
+// ---------------------------------------------------------------- store correspondence (Case.Tie)
+// Every put / delete that reaches the key-value engine is recorded.  The hist puts of each real Trie.Commit (grouped by
+// trie name and version) are replayed on the store model, which evaluates the link condition on them (link_check); a
+// pruner round's deduped puts and hist deletions are compared with the model's checkpoint_nodes / deleted_keys; account
+// roots are read through the model's reader and compared with the real reads.
+type tieState struct {
+	names  map[string]int
+	ops    []string
+	checks []func(ans string) string
+	clean  bool // only reads since the last restart (caches hold nothing the store does not)
+}
+
+var emptyTrieRoot = thor.Blake2b([]byte{0x80})
+
+func (t *tieState) name(n string) int {
+	if id, ok := t.names[n]; ok {
+		return id
+	}
+	id := len(t.names)
+	t.names[n] = id
+	return id
+}
+
+func verTok(v trie.Version) string { return fmt.Sprintf("%x.%x", v.Major, v.Minor) }
+
+// commitOps turns the recorded writes of one block commit into "c" operations; parentOf gives the parent root version of a trie.
+func (t *tieState) commitOps(c *Case, ops []triesim.WriteOp, what string, parentOf func(name string) (trie.Version, bool)) string {
+	df := c.options().TrieDedupedPartitionFactor
+	type group struct {
+		name    string
+		ver     trie.Version
+		entries []string
+	}
+	var groups []*group
+	idx := map[string]*group{}
+	for _, op := range ops {
+		nk, ok, err := triesim.ParseNodeKey(op.Key, c.HistFactor, df)
+		if !ok {
+			continue
+		}
+		if err != nil {
+			return what + ": unparsable trie key: " + err.Error()
+		}
+		if op.Del || !nk.Hist {
+			return fmt.Sprintf("%s: a commit touched the deduped space or deleted a trie key (%s %s)", what, nk.Name, triesim.PathTok(nk.Path))
+		}
+		txt, err := triesim.BlobText(op.Val)
+		if err != nil {
+			return what + ": undecodable node blob: " + err.Error()
+		}
+		k := nk.Name + "/" + verTok(nk.Ver)
+		g := idx[k]
+		if g == nil {
+			g = &group{name: nk.Name, ver: nk.Ver}
+			idx[k] = g
+			groups = append(groups, g)
+		}
+		g.entries = append(g.entries, triesim.PathTok(nk.Path)+"="+txt)
+	}
+	for _, g := range groups {
+		par := "-"
+		if pv, ok := parentOf(g.name); ok {
+			par = verTok(pv)
+		}
+		g := g
+		t.ops = append(t.ops, fmt.Sprintf("c %x %x %x %s %s", t.name(g.name), g.ver.Major, g.ver.Minor, par, strings.Join(g.entries, " ")))
+		t.checks = append(t.checks, func(ans string) string {
+			if ans != "L0" {
+				return fmt.Sprintf("%s: commit of trie %q at v%s (parent %s, %d nodes put): link_check answers %s (1 new root unreadable, 2 parent unreadable, 3 follows a node that is neither written nor the parent's, 4 stray write, 5 malformed blob)",
+					what, g.name, verTok(g.ver), par, len(g.entries), ans)
+			}
+			return ""
+		})
+	}
+	return ""
+}
+
+func sortedTokens(toks []string) string {
+	toks = append([]string(nil), toks...)
+	sort.Strings(toks)
+	return strings.Join(toks, " ")
+}
+
+// pruneOps: the round's recorded writes against the model's prediction.
+func (t *tieState) pruneOps(c *Case, ops []triesim.WriteOp, base, target uint32, roots []string) string {
+	df := c.options().TrieDedupedPartitionFactor
+	var puts, dels []string
+	for _, op := range ops {
+		nk, ok, err := triesim.ParseNodeKey(op.Key, c.HistFactor, df)
+		if !ok {
+			continue
+		}
+		if err != nil {
+			return "prune: unparsable trie key: " + err.Error()
+		}
+		switch {
+		case !op.Del && !nk.Hist:
+			txt, err := triesim.BlobText(op.Val)
+			if err != nil {
+				return "prune: undecodable node blob: " + err.Error()
+			}
+			ptn := "-"
+			if nk.HasPtn {
+				ptn = fmt.Sprintf("%x", nk.Ptn)
+			}
+			puts = append(puts, fmt.Sprintf("%x/%s/%s=%s", t.name(nk.Name), ptn, triesim.PathTok(nk.Path), txt))
+		case op.Del && nk.Hist:
+			dels = append(dels, fmt.Sprintf("%x/%s/%s", t.name(nk.Name), triesim.PathTok(nk.Path), verTok(nk.Ver)))
+		default:
+			return fmt.Sprintf("prune: the round put a hist key or deleted a deduped key (%s %s)", nk.Name, triesim.PathTok(nk.Path))
+		}
+	}
+	t.ops = append(t.ops, fmt.Sprintf("p %x %x %s", base, target, strings.Join(roots, " ")))
+	wantPuts, wantDels := sortedTokens(puts), sortedTokens(dels)
+	t.checks = append(t.checks, func(ans string) string {
+		f := strings.Fields(ans)
+		if len(f) == 0 || f[0] != "D" {
+			return fmt.Sprintf("prune [%d,%d): the model's checkpoint fails (%s) where the real round succeeded", base, target, ans)
+		}
+		var mp, md []string
+		cur := &mp
+		for _, x := range f[1:] {
+			if x == "#" {
+				cur = &md
+				continue
+			}
+			*cur = append(*cur, x)
+		}
+		if got := sortedTokens(mp); got != wantPuts {
+			return fmt.Sprintf("prune [%d,%d): deduped puts differ: implementation {%s} model {%s}", base, target, clip(wantPuts), clip(got))
+		}
+		if got := sortedTokens(md); got != wantDels {
+			return fmt.Sprintf("prune [%d,%d): deleted hist keys differ: implementation {%s} model {%s}", base, target, clip(wantDels), clip(got))
+		}
+		return ""
+	})
+	return ""
+}
+
+func accountLeaves(db *muxdb.MuxDB, root trie.Root) (out string) {
+	defer func() {
+		if r := recover(); r != nil {
+			out = "fail"
+		}
+	}()
+	_, leaves, err := triesim.Shape(db.NewTrie(muxdb.AccountTrieName, root).NodeIterator(nil, 0))
+	if err != nil {
+		return "fail"
+	}
+	parts := make([]string, len(leaves))
+	for i, l := range leaves {
+		parts[i] = l.Key + "=" + hexOrDash(l.Val) + "~" + hexOrDash(l.Meta)
+	}
+	return "T " + strings.Join(parts, ",")
+}
+
+func storageRoots(co *triesim.Committed) map[string]trie.Version {
+	m := map[string]trie.Version{}
+	for _, a := range co.Accts {
+		if len(a.Acc.StorageRoot) > 0 && a.Meta != nil && thor.BytesToBytes32(a.Acc.StorageRoot) != emptyTrieRoot {
+			m[state.StorageTrieName(a.Meta.StorageID)] = trie.Version{Major: a.Meta.StorageMajorVer, Minor: a.Meta.StorageMinorVer}
+		}
+	}
+	return m
 }
 
 func (c *Case) options() *muxdb.Options {
@@ -190,11 +360,25 @@ func runReal(c *Case) (rr realRun) {
 			rr.err = fmt.Sprint("panic: ", r)
 		}
 	}()
-	var eng engine.Engine = triesim.MemEngine()
+	rec := triesim.NewRecEngine()
+	var eng engine.Engine = rec
 	db := muxdb.NewWithEngine(eng, c.options())
 	fail := func(f string) {
 		if rr.failure == "" {
 			rr.failure = f
+		}
+	}
+	var tie *tieState
+	tieBroken := ""
+	if c.Tie && !c.Misaligned {
+		tie = &tieState{names: map[string]int{muxdb.AccountTrieName: 0, muxdb.IndexTrieName: 1}}
+		rr.tie = tie
+	}
+	tieNote := func(d string) {
+		if d != "" && tieBroken == "" {
+			tieBroken = d
+			tie.ops = append(tie.ops, "r 0 0 0")
+			tie.checks = append(tie.checks, func(string) string { return d })
 		}
 	}
 	// genesis
@@ -220,8 +404,13 @@ func runReal(c *Case) (rr realRun) {
 		return
 	}
 	g := blockRec{id: gen.Header().ID(), root: trie.Root{Hash: groot}, parent: -1}
-	g.atCommit = triesim.ReadCommitted(db, g.root).Text()
+	gco := triesim.ReadCommitted(db, g.root)
+	g.atCommit = gco.Text()
 	g.index = []string{hex.EncodeToString(g.id[:])}
+	if tie != nil {
+		g.stor, g.accLeaves = storageRoots(gco), accountLeaves(db, g.root)
+		tieNote(tie.commitOps(c, rec.Drain(), "genesis", func(string) (trie.Version, bool) { return trie.Version{}, false }))
+	}
 	rr.blocks = append(rr.blocks, g)
 
 	pruneTarget := uint32(0) // everything below has been pruned
@@ -246,6 +435,7 @@ func runReal(c *Case) (rr realRun) {
 			rr.err = "block ops: " + err.Error()
 			return false
 		}
+		rec.Drain()
 		ver := trie.Version{Major: num, Minor: conflicts}
 		stage, err := st.Stage(ver)
 		if err != nil {
@@ -271,6 +461,20 @@ func runReal(c *Case) (rr realRun) {
 			fail(f)
 		}
 		b.index = append(append([]string(nil), p.index...), hex.EncodeToString(b.id[:]))
+		if tie != nil {
+			b.stor, b.accLeaves = storageRoots(co), accountLeaves(db, b.root)
+			tie.clean = false
+			tieNote(tie.commitOps(c, rec.Drain(), fmt.Sprintf("block #%d", len(rr.blocks)), func(name string) (trie.Version, bool) {
+				if name == muxdb.IndexTrieName || (name == muxdb.AccountTrieName && p.root.Hash != emptyTrieRoot) {
+					return trie.Version{Major: p.num, Minor: p.conflicts}, true
+				}
+				if name == muxdb.AccountTrieName {
+					return trie.Version{}, false // the parent state is empty: no root node was ever written
+				}
+				v, ok := p.stor[name]
+				return v, ok
+			}))
+		}
 		rr.blocks = append(rr.blocks, b)
 		return true
 	}
@@ -296,6 +500,9 @@ func runReal(c *Case) (rr realRun) {
 				rr.err = "restart: " + err.Error()
 				return
 			}
+			if tie != nil {
+				tie.clean = true
+			}
 		case "prune":
 			head := -1
 			for i := len(rr.blocks) - 1; i >= 0; i-- { // main head = last main block
@@ -307,9 +514,31 @@ func runReal(c *Case) (rr realRun) {
 			if rr.blocks[head].num < s.Target {
 				continue
 			}
+			rec.Drain()
 			if err := pruner.VerifPruneTries(db, repo.NewChain(rr.blocks[head].id), s.Base, s.Target); err != nil {
 				rr.err = "prune: " + err.Error()
 				return
+			}
+			if tie != nil {
+				tie.clean = false
+				x := head
+				for rr.blocks[x].num > s.Target-1 {
+					x = rr.blocks[x].parent
+				}
+				tb := rr.blocks[x] // the block target-1 of the pruned chain
+				roots := []string{fmt.Sprintf("1:%x.%x", tb.num, tb.conflicts)}
+				if tb.root.Hash != emptyTrieRoot {
+					roots = append(roots, fmt.Sprintf("0:%x.%x", tb.num, tb.conflicts))
+				}
+				var snames []string
+				for n := range tb.stor {
+					snames = append(snames, n)
+				}
+				sort.Strings(snames)
+				for _, n := range snames {
+					roots = append(roots, fmt.Sprintf("%x:%s", tie.name(n), verTok(tb.stor[n])))
+				}
+				tieNote(tie.pruneOps(c, rec.Drain(), s.Base, s.Target, roots))
 			}
 			pruneTarget = s.Target
 			pruneChain = make([]int, rr.blocks[head].num+1)
@@ -352,6 +581,26 @@ func runReal(c *Case) (rr realRun) {
 					rec.index = "different"
 				}
 				rr.reads = append(rr.reads, rec)
+				if tie != nil && b.root.Hash != emptyTrieRoot {
+					// the model's reader on the model's store against the real read of the account trie: exact when the caches
+					// are empty (only reads since a restart); otherwise a real read that still equals the committed content
+					// may come from the caches
+					real, strict, bi, si := accountLeaves(db, b.root), tie.clean, bi, si
+					atCommit := b.accLeaves
+					tie.ops = append(tie.ops, fmt.Sprintf("r 0 %x %x", b.num, b.conflicts))
+					tie.checks = append(tie.checks, func(ans string) string {
+						if ans == "Tfail" {
+							ans = "fail"
+						}
+						if ans == real || (!strict && real == atCommit) {
+							return ""
+						}
+						return fmt.Sprintf("read of the account root of block #%d at step %d (%s): implementation %q model %q", bi, si, class, clip(real), clip(ans))
+					})
+					if class == "fork" && real != atCommit && real != "fail" {
+						rr.counts["tie.deadfork_reads_different"]++
+					}
+				}
 				rr.counts["read."+class+".state="+rec.state]++
 				rr.counts["read."+class+".index="+rec.index]++
 				if c.Misaligned {
@@ -654,6 +903,7 @@ func genCase(r *hx.Rand, idx int, thorough bool) *Case {
 	c.CacheMB = r.Range(1, 2)
 	c.TTL = uint16([]int{0, 1, 4, 32}[r.Intn(4)])
 	c.Misaligned = idx%8 == 7
+	c.Tie = idx%8 == 3 // store correspondence (smaller trees: the list-based store model is quadratic)
 	destroyBias = shared
 	defer func() { destroyBias = false }()
 	c.Genesis = genOps(r, na, nk, 0, r.Range(3, 30))
@@ -661,6 +911,9 @@ func genCase(r *hx.Rand, idx int, thorough bool) *Case {
 	nblocks := r.Range(10, 60)
 	if thorough {
 		nblocks = r.Range(30, 300)
+	}
+	if c.Tie {
+		nblocks = r.Range(10, 30)
 	}
 	f := c.HistFactor
 	mainHead, mainNum := 0, uint32(0)
@@ -797,9 +1050,20 @@ func validParents(c *Case) bool {
 func runCases(ctx *hx.Ctx, cases []*Case) {
 	runs := make([]realRun, len(cases))
 	lines := make([]string, len(cases))
+	tieAt := map[int]int{}
 	for i, c := range cases {
 		runs[i] = runReal(c)
 		lines[i] = oracleLine(c, &runs[i])
+	}
+	for i, c := range cases {
+		if t := runs[i].tie; t != nil && runs[i].err == "" && len(t.ops) > 0 {
+			df := "-"
+			if c.DedupFactor != 0 {
+				df = fmt.Sprintf("%x", c.DedupFactor)
+			}
+			tieAt[i] = len(lines)
+			lines = append(lines, fmt.Sprintf("X %x %s | %s", c.HistFactor, df, strings.Join(t.ops, " ; ")))
+		}
 	}
 	answers, err := hx.AskAll(ctx.Oracle, lines)
 	if err != nil {
@@ -853,7 +1117,31 @@ func runCases(ctx *hx.Ctx, cases []*Case) {
 			reported["correspondence"] = true
 			ctx.Violation("correspondence:committed-content", "state/trie model and committed tries disagree; no input found on which the property's own predicates fail: "+d, c, false)
 		}
+		if at, ok := tieAt[i]; ok {
+			if d := tieDisagreement(rr.tie, answers[at]); d != "" && !reported["store-tie"] {
+				reported["store-tie"] = true
+				ctx.Violation("correspondence:store-writes", "the node-store model (hasher.store link condition / checkpoint iterator / partition delete / reader) and the recorded engine writes disagree; no input found on which the property's own predicates fail: "+d, c, false)
+			}
+			ctx.Cov.Add("tie.cases", 1)
+			ctx.Cov.Add("tie.ops", len(rr.tie.ops))
+		}
 	}
+}
+
+func tieDisagreement(t *tieState, ans string) string {
+	if strings.HasPrefix(ans, "ERR") {
+		return "oracle: " + clip(ans)
+	}
+	segs := strings.Split(ans, " ; ")
+	if len(segs) != len(t.checks) {
+		return fmt.Sprintf("oracle answered %d segments for %d store operations", len(segs), len(t.checks))
+	}
+	for i, chk := range t.checks {
+		if d := chk(strings.TrimSpace(segs[i])); d != "" {
+			return d
+		}
+	}
+	return ""
 }
 
 var reported = map[string]bool{}
